@@ -319,6 +319,13 @@ func addCollidingDefs(t *rapid.T, c *core.Ctx, f *model.File, family string) {
 				e.EnumVals = append(e.EnumVals, jv.StrV(v))
 			}
 			return e
+		case "defaultvalue":
+			// identical but for the default values
+			dn, ds := jv.IntV([]int64{3, 5, 7}[i]), jv.StrV([]string{"strict", "lenient", "off"}[i])
+			return &model.Node{Kind: model.KObject, Props: []model.Prop{
+				{Name: "maxRetries", Node: &model.Node{Kind: model.KInteger, Default: &dn}},
+				{Name: "mode", Node: &model.Node{Kind: model.KString, Default: &ds}},
+			}}
 		case "default":
 			// identical but for annotations: only the first gives the required host a default
 			host := &model.Node{Kind: model.KString}
